@@ -1074,3 +1074,25 @@ def waves_specs():
         ws = [{"name": "painter%d" % i, "skills": {"paint": 1.0}, "fskills": {"booth": 1.0}, "solo": solo, "cost": 1.0} for i in range(k)]
         out.append({"tasks": tasks, "links": [], "components": comps, "workplaces": wps, "teams": [{"name": "TM0", "targets": list(range(n)), "workers": ws}], "label": "waves:%d:%s" % (k, "solo" if solo else "shared")})
     return out
+
+
+def decimal_floor_spec():
+    """twelve blocks with floor sizes 0.1..0.4 (no binary fractions) going through two equal bays of area 1.0 with four machines each, four operators"""
+    floor = [0.1, 0.2, 0.3, 0.3, 0.3, 0.1, 0.4, 0.3, 0.4, 0.4, 0.4, 0.1]
+    work = [3, 2, 3, 3, 3, 3, 5, 2, 2, 5, 3, 2]
+    n = len(floor)
+    tasks = [{"name": "job", "id": "job%d" % i, "work": float(work[i]), "nf": True} for i in range(n)]
+    comps = [{"name": "block%d" % i, "tasks": [i], "space": floor[i]} for i in range(n)]
+    wps = [{"name": "bay%d" % k, "cap": 1.0, "targets": list(range(n)), "facilities": [{"name": "machine", "id": "bay%d_m%d" % (k, j), "skills": {"job": 1.0}} for j in range(4)]} for k in range(2)]
+    ws = [{"name": "w%d" % i, "skills": {"job": 1.0}, "fskills": {"machine": 1.0}} for i in range(4)]
+    return {"tasks": tasks, "links": [], "components": comps, "workplaces": wps, "teams": [{"name": "team", "targets": list(range(n)), "workers": ws}], "label": "decimal-floor-sizes"}
+
+
+def tied_lines_spec():
+    """three cut -> weld lines of equal total length (4+2, 2+4, 3+3) and two solo workers: tasks of different work amount tie under the slack-based rules"""
+    tasks, links = [], []
+    for i, (a, b) in enumerate(((4.0, 2.0), (2.0, 4.0), (3.0, 3.0))):
+        tasks += [{"name": "cut", "id": "line%d_cut" % i, "work": a}, {"name": "weld", "id": "line%d_weld" % i, "work": b}]
+        links.append([2 * i, 2 * i + 1, "FS"])
+    ws = [{"name": "w%d" % i, "skills": {"cut": 1.0, "weld": 1.0}, "solo": True, "cost": 10.0 * (i + 1)} for i in range(2)]
+    return {"tasks": tasks, "links": links, "teams": [{"name": "team", "targets": list(range(6)), "workers": ws}], "label": "tied-lines"}
